@@ -154,6 +154,7 @@ func (db *DB) newMem(n int) (mem *memDB, err error) {
 	}
 	db.journalWriter = w
 	db.journalFd = fd
+	db.journalFailed = false
 	db.frozenMem = db.mem
 	mem = db.mpoolGet(n)
 	mem.incref() // for self
